@@ -13,23 +13,31 @@ SETS = {
     # headings, code blocks, HTML blocks, entities, autolinks, images
     "fullC": (["# h *e*", "## ", "a *b*", "===", "---", "```x", "~~~ y&amp;z\\*", "    code <", "<div>", "*a* &amp; \\* &#35;", "1. a", "   b",
                "<http://x.y/%5Bé> <m@x.y>", "`` ` ``", "![*i* &amp; `c` <b> &#35;](/s \"t\")",
-               "&nLt; &AElig; &hellip &nbsp;x", "[t](/u \"&nGt;&NotEqualTilde;&Dcaron;\")"], ["", "> ", "- "], ["\n", "```x", "    c", "> ~~~", "c `d"]),
+               "&nLt; &AElig; &hellip &nbsp;x", "[t](/u \"&nGt;&NotEqualTilde;&Dcaron;\")",
+               " ```x y", "   ~~~z"], ["", "> ", "- "], ["\n", "```x", "    c", "> ~~~", "c `d"]),
     # lazy continuation lines, setext underlines and thematic breaks inside containers, nested containers, ordered items whose
     # content column is 3-5, fenced code opened and closed at different depths - with inline pieces on the text lines
     "fullE": (["a *b", "c*", "===", "---", "```", "[x](/u", ")", "# h", "1. i", "- j", "> q", "   k", "    m"], ["", "> ", "- ", "1. ", "   ", "> - ", "  > "], ["\n", ">\n"]),
     # tabs and partially consumed tabs in front of inline content; CR and CRLF line endings
     "fullD": (["a *b", "c*", "`c", "d`", "[x](/u", "'t')", "a\\", "b  ", "[x][a", "b]", "[a", "b]: /u"], ["", ">\t", "-\t", "\t", " \t", "> "], ["\n"]),
+    # pieces of HTML blocks (start lines, lines that meet an end condition, one-line blocks) behind tabs and partially consumed tabs:
+    # raw content is verbatim, only the rest of a partially consumed tab becomes spaces
+    "fullH": (["a *b", "c*", "<!-- c -->", "<pre>", "x</pre>", "<?php", "y ?>", "<div>", "</div>", "z"], ["", ">\t", "-\t", "\t", " \t", "> ", "  "], ["\n"]),
     # shortcut / collapsed references whose label is broken across prefixed lines (the definition follows in the same shape, so that
     # two shapes make the whole case), backslash escapes inside destinations and titles (an escaped backslash before an escaped
     # punctuation character, an escaped ampersand before an entity name). Shapes with inner line endings: oracle runs only, not the lemmas.
     "fullF": (["[a", "![a", "b]", "b][]", "b]\n\n[a b]: /u", "b][]\n\n[a b]: /u", r'[x](/p\\\(q "t\\\*u \&amp;")',
                r'[e]: </p\\\(q> "x\\\*y \&amp;"', "[x][e] [e]"], ["", "> ", "- ", "  "], ["\n", "[a b]: /u\n"]),
+    # a backslash as the last byte of a line inside every construct that may (title, label, raw tag, code span, plain destination) or
+    # may not (<...> destination, autolink) continue on the next line; with CR and CRLF endings as fullGcr / fullGcrlf
+    "fullG": (["[a](<b\\", "c>)", "[a](/u \"t\\", "u\")", "[a](/u\\", ")", "[a\\", "b]", "b]: /u", "<a b=\"c\\", "d\">", "`a\\", "b`", "<http://a\\", "b>",
+               "[x]: <u\\", "v>", "[x]: /u 't\\", "w'", "[x]: /u\\", "[x]"], ["", "> ", "- "], ["\n"]),
     # NUL bytes (each becomes U+FFFD before anything else is decided) in text, next to delimiter runs, in labels, destinations,
     # titles, code spans, info strings, tags, and the numeric reference &#0;
     "fullN": (["a\x00b", "\x00", "*\x00*", "_\x00_a", "[\x00]: /u", "[x][\x00]", "`\x00`", "# \x00", "```\x00", "<\x00>", "<a \x00>", "&#0; &#x0;",
                "[y](/\x00 \"\x00\")", "\x00==="], ["", "> ", "- "], ["\n", "    \x00\n", "===\n"]),
 }
-EOLS = {"fullDcr": ("fullD", "\r"), "fullAcrlf": ("fullA", "\r\n")}
+EOLS = {"fullDcr": ("fullD", "\r"), "fullAcrlf": ("fullA", "\r\n"), "fullGcr": ("fullG", "\r"), "fullGcrlf": ("fullG", "\r\n")}
 
 
 def tl(s):
